@@ -1,7 +1,7 @@
 /-
 RelativizedPigeonholePrinciple: meaning of the clause shapes 3.1c–3.1e, the witness assignment.
 -/
-import Lemmas.FamPigeon
+import Lemmas.C01Pigeon
 import CnfgenModel.Fam.Php
 namespace Cnfgen.Fam
 open Cnfgen
